@@ -110,11 +110,38 @@ def directed_bases():
         "do h3 s1.write h5 stream=1 len=3000",
         "do h0 s0.read h4 cap=20000",
         "do top run", "end"]) + "\n")
+    # read / write / wait-for-read started while the connect is still in progress (the library parks
+    # them on the socket until the SYN-ACK arrives): an intervention during the handshake must
+    # abort every one of them, not only the connect
+    out.append("\n".join(["== bd_hsops"] + hdr + [
+        "do top a0.new n1", "do top a0.open v4", "do top a0.bind 0.0.0.0:7000", "do top a0.listen",
+        "do top s0.new n1", "do top a0.accept s0 h0",
+        "do top s1.new n0", "do top s1.connect 10.0.0.2:7000 h1",
+        "do top s1.read h2 cap=100", "do top s1.write h3 stream=1 len=700",
+        "do top s2.new n0", "do top s2.connect 10.0.0.2:7000 h4", "do top s2.wait_read h5",
+        "do top s3.new n0", "do top s3.connect 10.0.0.2:7001 h6", "do top s3.read h7 cap=10",
+        "do h0 s0.write h8 stream=2 len=50",
+        "do top run", "end"]) + "\n")
+    # several timers pending with exactly the same expiry (own timers, two refused connects started
+    # together, two resolvers with equal latency): removal from the timer queue has to find the
+    # right one among equals
+    out.append("\n".join(["== bd_eqt"] + hdr + [
+        "dns a.com err=ok lat=3000000 ips=1.2.3.4", "dns b.com err=ok lat=3000000 ips=1.2.3.5",
+        "do top t0.expires_after 3000000", "do top t0.wait h0",
+        "do top t1.expires_after 3000000", "do top t1.wait h1",
+        "do top t2.expires_after 3000000", "do top t2.wait h2",
+        "do top t3.expires_after 9000000", "do top t3.wait h3",
+        "do top t4.expires_after 1000000", "do top t4.wait h4",
+        "do top s1.new n0", "do top s1.connect 10.0.0.2:7001 h5",
+        "do top s2.new n0", "do top s2.connect 10.0.0.2:7002 h6",
+        "do top r0.new n0 tcp", "do top r0.resolve a.com 80 h7",
+        "do top r1.new n0 tcp", "do top r1.resolve b.com 80 h8",
+        "do top run", "end"]) + "\n")
     return out
 
 # directed base -> (objects whose every intervention is run, boundaries 1..K)
 DIRECTED = {"bd_udpw": (["u0"], 3), "bd_accnew": (["a0"], 5), "bd_res": (["r0"], 7), "bd_conn": (["s1", "s2", "a0"], 8),
-            "bd_drop": (["s1"], 30)}
+            "bd_drop": (["s1"], 30), "bd_hsops": (["s1", "s2", "s3"], 6), "bd_eqt": (["t0", "t1", "t2", "s1", "s2", "r0", "r1"], 4)}
 
 
 def objects_of(scn):
@@ -154,18 +181,22 @@ def interventions(obj, uid, keep_alive=False):
     return []
 
 
-def with_intervention(base, k, ops, tag):
+def with_intervention(base, k, ops, tag, kind="s"):
     lines = base.rstrip("\n").split("\n")
     assert lines[-1] == "end"
     sid = lines[0][3:].strip()
     lines[0] = "== %s_%s" % (sid, tag)
-    add = ["do s%d %s" % (k, o.strip()) for o in ops.split(";")]
+    add = ["do %s%d %s" % (kind, k, o.strip()) for o in ops.split(";")]
     # first node name for `new` ops inside interventions
     return "\n".join(lines[:-1] + add + ["end"]) + "\n"
 
 
-def matrix(bases, counts, seed, tier):
-    """bases: list of scenario texts; counts: id -> number of event boundaries."""
+def matrix(bases, counts, seed, tier, advs=None):
+    """bases: list of scenario texts; counts: id -> number of event boundaries after a handler
+    (contexts `s<k>`); advs: id -> number of clock steps (contexts `a<k>`: the expired timers'
+    completions are posted and none has run - the boundary a handler of an equal-expiry timer
+    armed earlier would occupy)."""
+    advs = advs or {}
     rng = random.Random(seed * 92821 + 1)
     out = []
     uid = 0
@@ -179,23 +210,24 @@ def matrix(bases, counts, seed, tier):
         for ln in b.split("\n"):
             tk = ln.split()
             if tk and tk[0] == "node": node = tk[1]; break
-        ks = list(range(1, n + 1))
+        na = advs.get(sid, 0)
+        ks = [("s", k) for k in range(1, n + 1)] + [("a", k) for k in range(1, na + 1)]
         if sid in DIRECTED:
             dobjs, dk = DIRECTED[sid]
-            for k in range(1, min(n, dk) + 1):
+            for kind, k in [("s", k) for k in range(1, min(n, dk) + 1)] + [("a", k) for k in range(1, min(na, dk) + 1)]:
                 for o in dobjs:
                     for iv in interventions(o, uid, o in peers):
                         uid += 1
                         iv = re.sub(r"h5\d{4}", "h%d" % (50000 + uid), iv)
                         if node: iv = iv.replace(" n0 ;", " %s ;" % node)
-                        out.append(with_intervention(b, k, iv, "k%d_%d" % (k, uid)))
+                        out.append(with_intervention(b, k, iv, "%s%d_%d" % ("k" if kind == "s" else "a", k, uid), kind))
             continue
         if tier == "quick":
-            rng.shuffle(ks); ks = sorted(ks[:6])
+            rng.shuffle(ks); ks = sorted(ks[:8])
         elif len(ks) > 40:
             # all boundaries of short bases, a spread of 40 for long ones
             rng.shuffle(ks); ks = sorted(ks[:40])
-        for k in ks:
+        for kind, k in ks:
             cands = []
             for o in objs:
                 for iv in interventions(o, uid, o in peers):
@@ -208,5 +240,5 @@ def matrix(bases, counts, seed, tier):
                 uid += 1
                 iv = re.sub(r"h5\d{4}", "h%d" % (50000 + uid), iv)
                 if node: iv = iv.replace(" n0 ;", " %s ;" % node)
-                out.append(with_intervention(b, k, iv, "k%d_%d" % (k, uid)))
+                out.append(with_intervention(b, k, iv, "%s%d_%d" % ("k" if kind == "s" else "a", k, uid), kind))
     return out
